@@ -924,10 +924,24 @@ func c06ErrorsNotFiltered(c *Ctx) {
 			callee := calleeOf(info, fromCall)
 			key := f.Name + "/error of " + callee.Name() + "#" + itoa(n)
 			exact := false
-			if b, ok := unparen(is.Cond).(*ast.BinaryExpr); ok && b.Op == token.NEQ {
-				for _, side := range [][2]ast.Expr{{b.X, b.Y}, {b.Y, b.X}} {
-					if id := identOf(side[0]); id != nil && unparen(side[0]) == ast.Expr(id) && info.Uses[id] == errObj && isNilExpr(info, side[1]) {
-						exact = true
+			// `err != nil`, possibly as one disjunct of a wider guard (err != nil || v == nil leaves at least as often)
+			var disjuncts []ast.Expr
+			var flat func(e ast.Expr)
+			flat = func(e ast.Expr) {
+				if b, ok := unparen(e).(*ast.BinaryExpr); ok && b.Op == token.LOR {
+					flat(b.X)
+					flat(b.Y)
+					return
+				}
+				disjuncts = append(disjuncts, unparen(e))
+			}
+			flat(is.Cond)
+			for _, d := range disjuncts {
+				if b, ok := d.(*ast.BinaryExpr); ok && b.Op == token.NEQ {
+					for _, side := range [][2]ast.Expr{{b.X, b.Y}, {b.Y, b.X}} {
+						if id := identOf(side[0]); id != nil && unparen(side[0]) == ast.Expr(id) && info.Uses[id] == errObj && isNilExpr(info, side[1]) {
+							exact = true
+						}
 					}
 				}
 			}
